@@ -720,7 +720,7 @@ func init() {
 		Gen:   c38Gen,
 		Check: c38CheckParse,
 		Class: c38ClassParse,
-		Quick: 20000, Thorough: 300000,
+		Quick: 20000, Thorough: 300000, FuzzSecs: 45,
 		Known: known,
 	})
 	vs.Register(vs.Prop[c38Case]{
